@@ -14,6 +14,8 @@ pub mod c08;
 pub mod c09;
 pub mod c10;
 pub mod c11;
+pub mod c12;
+pub mod c13;
 pub mod c14;
 pub mod c16;
 pub mod c17;
@@ -32,6 +34,8 @@ pub fn run(id: &str, tier: Tier) -> Option<CheckResult> {
         "C09" => Some(c09::run(tier)),
         "C10" => Some(c10::run(tier)),
         "C11" => Some(c11::run(tier)),
+        "C12" => Some(c12::run(tier)),
+        "C13" => Some(c13::run(tier)),
         "C14" => Some(c14::run(tier)),
         "C16" => Some(c16::run(tier)),
         "C17" => Some(c17::run(tier)),
@@ -53,6 +57,8 @@ pub fn replay(id: &str, case: &Value) -> Option<Vec<Violation>> {
         "C09" => Some(c09::replay(case)),
         "C10" => Some(c10::replay(case)),
         "C11" => Some(c11::replay(case)),
+        "C12" => Some(c12::replay(case)),
+        "C13" => Some(c13::replay(case)),
         "C14" => Some(c14::replay(case)),
         "C16" => Some(c16::replay(case)),
         "C17" => Some(c17::replay(case)),
